@@ -18,9 +18,15 @@ func JudgeAtLeastOnce(obs *Obs) (fs []Finding, info map[string]int) {
 	info = map[string]int{}
 	sc := obs.Scenario
 	add := func(class, what string) { fs = append(fs, Finding{class, what}) }
+	// every record of the scenario, whether or not its connection got to write it completely: a partially written line of a
+	// connection that was still open (or failed) may legitimately be delivered with its stamp
 	sent := map[string]Rec{}
-	for _, r := range obs.Sent {
-		sent[r.Stamp()] = r
+	for _, g := range sc.Gens {
+		for _, cs := range g.Conns {
+			for _, r := range cs.Recs {
+				sent[r.Stamp()] = r
+			}
+		}
 	}
 	// connections on which the agent read everything (clean EOF after our half-close)
 	clean := map[int]bool{}
@@ -70,8 +76,8 @@ func JudgeAtLeastOnce(obs *Obs) (fs []Finding, info map[string]int) {
 					// proper prefix of the sent line, or the last complete line with the partial next line attached as a
 					// continuation (which also marks it as multi-line, so it is not unescaped)
 					got := d.Fields[k]
-					if strings.HasPrefix(v, got) {
-						continue
+					if strings.HasPrefix(v, got) || strings.HasPrefix(r.RawMessage(), got) {
+						continue // cut before or inside something a transform would have rewritten (e-mail, escape)
 					}
 					if i := strings.Index(got, "\n<"); i >= 0 {
 						head := got[:i]
